@@ -38,17 +38,30 @@ def unhex(t):
 
 
 class Lock:
+    """flock on a file; re-entrant within this process (a harness that holds the lock of the Coq tree may call
+    build_driver, which takes it again)"""
+    held = {}
+
     def __init__(self, path):
-        self.path = path
+        self.path = os.path.abspath(path)
 
     def __enter__(self):
-        self.f = open(self.path, 'w')
-        fcntl.flock(self.f, fcntl.LOCK_EX)
+        h = Lock.held.get(self.path)
+        if h:
+            h[1] += 1
+            return self
+        f = open(self.path, 'w')
+        fcntl.flock(f, fcntl.LOCK_EX)
+        Lock.held[self.path] = [f, 1]
         return self
 
     def __exit__(self, *a):
-        fcntl.flock(self.f, fcntl.LOCK_UN)
-        self.f.close()
+        h = Lock.held[self.path]
+        h[1] -= 1
+        if h[1] == 0:
+            fcntl.flock(h[0], fcntl.LOCK_UN)
+            h[0].close()
+            del Lock.held[self.path]
 
 
 def strip_coq_comments(text):
@@ -121,6 +134,7 @@ class Ctx:
         self.scratch = []
         self.notes = []
         self.shims_used = []
+        self.gen_changed = False
         atexit.register(self.cleanup)
 
     # ---- scratch space ---------------------------------------------------
@@ -174,7 +188,8 @@ class Ctx:
                     m = importlib.import_module(t)
                     out = m.generate(REPO)
                     for rel, content in out.items():
-                        write_if_changed(os.path.join(COQ, 'gen', rel), content)
+                        if write_if_changed(os.path.join(COQ, 'gen', rel), content):
+                            self.gen_changed = True
                 except Exception as e:   # translator pattern no longer matches
                     outs = T_OUT.get(t)
                     mine = t in translators or outs is None or any(o in need for o in outs)
@@ -307,8 +322,15 @@ class Ctx:
         return d
 
     def build_driver(self, name, withz=False):
-        with Lock(os.path.join(VERIF, 'driver', '.lock')):
-            r = sh([os.path.join(VERIF, 'bin', 'build-driver'), name] + (['z'] if withz else []))
+        # the extraction reads coq/gen and the compiled theories: regenerate from THIS run's repository and extract under
+        # the lock of the Coq tree, so that a concurrent check on another copy cannot slip its switches in between
+        with Lock(os.path.join(COQ, '.lock')):
+            self.gen_changed = False
+            self.regen([], have_lock=True)
+            if self.gen_changed:
+                sh(['timeout', '1500', 'make', '-k', '-j16'], cwd=COQ)
+            with Lock(os.path.join(VERIF, 'driver', '.lock')):
+                r = sh([os.path.join(VERIF, 'bin', 'build-driver'), name] + (['z'] if withz else []))
         if r.returncode != 0:
             raise BuildFailure('driver %s does not build:\n%s' % (name, r.stdout[-2000:]))
         return os.path.join(VERIF, 'driver', 'build', name, name + '_driver')
